@@ -264,7 +264,7 @@ if not getattr(_core.replay_file, "_c08_wrapped", False):
     _replay_file._c08_wrapped = True
     _core.replay_file = _replay_file
 
-NATIVE_GC = ["-ffunction-sections", "-fdata-sections", "-Wl,--gc-sections", "-Wl,--unresolved-symbols=ignore-all"]
+NATIVE_GC = ["-ffunction-sections", "-fdata-sections", "-Wl,--gc-sections", "-Wl,--unresolved-symbols=ignore-all", "-no-pie"]
 
 CHAN_ASSUME = ["union chan_data is modelled as a struct (members side by side): CBMC 6.11 loses array contents on updates of a struct "
                "nested in a union (spurious counterexamples); chan.c never type-puns through it",
